@@ -504,3 +504,9 @@ def run(ctx):
              "emulator and the runtime)")
     from rules import round6
     round6.check_buffer_length_args(ctx, "R19.8")
+    ctx.rule("R19.9", "ovnisort's look-back window never holds pointers into a stream that is no longer the one being "
+             "sorted: the window is emptied when a stream is started (process_trace evaluated on two "
+             "streams, the rule C16 reports as R16.6); a stale pointer makes the sort plan span two unrelated mappings (reads outside the loaded stream, "
+             "a pwrite with a wild offset and SIGABRT)")
+    from rules import round3
+    round3.check_ring_per_stream(ctx, "R19.9")
